@@ -3,7 +3,7 @@
 cd "$(dirname "$0")/.." || exit 2
 T=${3:-quick}
 for s in $1; do for p in $2; do
-  VERIF_SEED=$s VERIF_OUT=${VERIF_OUT:-/tmp/sweep_out} ./check $p --tier $T > /tmp/sweep_$p_$s.log 2>&1; rc=$?
-  echo "seed=$s $p rc=$rc $(grep -c '^VIOLATION' /tmp/sweep_$p_$s.log) $(tail -1 /tmp/sweep_$p_$s.log)"
-  [ $rc != 0 ] && grep -A3 '^VIOLATION' /tmp/sweep_$p_$s.log | cut -c1-600
+  VERIF_SEED=$s VERIF_OUT=${VERIF_OUT:-/tmp/sweep_out} ./check $p --tier $T > /tmp/sweep_${p}_${s}.log 2>&1; rc=$?
+  echo "seed=$s $p rc=$rc $(grep -c '^VIOLATION' /tmp/sweep_${p}_${s}.log) $(tail -1 /tmp/sweep_${p}_${s}.log)"
+  [ $rc != 0 ] && grep -A3 '^VIOLATION' /tmp/sweep_${p}_${s}.log | cut -c1-600
 done; done
